@@ -4,10 +4,12 @@ package mon
 import (
 	_ "verif/mon/c01"
 	_ "verif/mon/c02"
+	_ "verif/mon/c03"
 	_ "verif/mon/c10"
 	_ "verif/mon/c11"
 	_ "verif/mon/c12"
 	_ "verif/mon/c13"
+	_ "verif/mon/c14"
 	_ "verif/mon/c15"
 	_ "verif/mon/c16"
 	_ "verif/mon/c17"
